@@ -52,6 +52,13 @@ CLAIMED.update({
          "Recorded backend differences (floor vs trunc division, loose equality on tags, 31-bit Vec ints, string escapes, non-ASCII, INT_MIN constant merging) are excluded by construction and re-observed by probes.",
          "DESIGN.md §4 C04"),
 })
+CLAIMED.update({
+ "C06": ("fault_enumeration",
+         "single-fault injection on a typed program IR (property testing over a choice tape): 22 guaranteed-ill-typed fault kinds at tape-chosen sites of generated well-typed programs",
+         "Each case is a well-typed generated program plus one edit that is ill-typed by construction (the IR knows every expression's type; all generic calls carry explicit type arguments, or the type parameter is pinned by another argument). The unmutated program must have no diagnostics; the mutant must get at least one diagnostic located in the offending module and compile_sources must return Err. Evidence tabulates fault kind x outcome.",
+         "The guarantee of each fault kind is argued in generators/faults.rs; sites where the guarantee does not hold (inferred type arguments, literal merged into INT_MIN) are excluded or discarded and counted.",
+         "DESIGN.md §4 C06"),
+})
 NOT_YET = {}
 
 props = [json.loads(l) for l in open(os.path.join(HERE, "properties.jsonl"))]
